@@ -743,8 +743,8 @@ struct Engine {
                     nonnum++;
             if (nonnum >= 2)
                 nl = true;
-        } else if (k == Z3_OP_MOD || k == Z3_OP_REM || k == Z3_OP_IDIV || k == Z3_OP_DIV || k == Z3_OP_POWER)
-            nl = true;
+        } else if (k == Z3_OP_MOD || k == Z3_OP_REM || k == Z3_OP_IDIV || k == Z3_OP_DIV || k == Z3_OP_POWER || k == Z3_OP_INT2BV || k == Z3_OP_BV2INT)
+            nl = true; // (the Int -> bit-vector bridge of the hash model mixes theories: splitting makes it ground)
         for (unsigned i = 0; i < n; i++)
             nonlinearVars(e.arg(i), seen, out, nl);
     }
